@@ -364,10 +364,11 @@ func (m Manager) onUpdate(ctx context.Context, event orm.DIDChangeLog) error {
 		return err
 	}
 	if resolver.IsDeactivated(*currentDIDDocument) {
-		// should not occur
 		// we're not using the deactivated flag in the resolver metadata since there could be conflicted docs
+		// return an error, so the change is rolled back for all DIDs of the subject.
+		// Otherwise the other DIDs (and the SQL version of this DID) get the update that is not published for this DID.
 		log.Logger().Warnf("document (%s) is deactivated, won't update", currentDIDDocument.ID.String())
-		return nil
+		return fmt.Errorf("update DID document: %w", resolver.ErrDeactivated)
 	}
 	next, err := event.DIDDocumentVersion.ToDIDDocument()
 	if err != nil {
